@@ -468,14 +468,14 @@ theorem C08_release_conservation (s0 : State) (hn : 0 < s0.sh.words.length)
   omega
 
 /-- `Clear` of an id whose bit is clear returns false and changes nothing (first load and every
-    re-load after a failed CAS); beyond the capacity it panics with an index error and changes nothing;
+    re-load after a failed CAS); beyond the capacity it returns false and changes nothing (fix of KF-C08-3);
     and the only steps of a `Clear` call that change the shared state are the successful CAS — whose
     compare value has the bit set (`localA`) — and the decrement after it. -/
 theorem C08_clear_noop (sh : Shared) (id : Nat) :
     (id / 64 < sh.words.length → bitAt sh.words id = false →
         tstep sh (.c8 id) = (sh, .idle, some (.cleared false)) ∧
         tstep sh (.c10 id) = (sh, .idle, some (.cleared false))) ∧
-    (¬ id / 64 < sh.words.length → tstep sh (.c8 id) = (sh, .idle, some .crashIndex)) ∧
+    (¬ id / 64 < sh.words.length → tstep sh (.c8 id) = (sh, .idle, some (.cleared false))) ∧
     (tstep sh (.c8 id)).1 = sh ∧ (tstep sh (.c10 id)).1 = sh ∧
     (∀ b, sh.words.getD (bucketOffset id) 0 ≠ b → tstep sh (.c9 id b) = (sh, .c10 id, none)) := by
   refine ⟨?_, ?_, ?_, ?_, ?_⟩
@@ -565,50 +565,37 @@ theorem C08_cex_clear_reserved :
       [(.clear 0, some .crashNegative, 128), (.get, some (.stream 0 true), 127)] := by
   decide
 
-/-! ### `Clear` of a NEGATIVE argument (proposed finding KF-C08-3)
+/-! ### `Clear` of something that is not an id of the generator (KF-C08-3, repaired)
 
-Full statement ("releasing reports whether the id was in use, … the available count always equals the number of
-non-reserved ids not handed out") for EVERY `int` argument of `Clear`. Every theorem of this file takes the id as a
-`Nat` (that is the excluding hypothesis: `0 ≤ stream`); for a negative argument the unchanged code does NOT satisfy
-the statement: -/
+Before the fix `Clear(-1..-63)` answered true and decremented the counter without clearing a bit, `Clear(-64..)` and
+`Clear(id ≥ NumStreams)` panicked with an index error. The repaired code (`if stream < 0 || stream >= s.NumStreams
+{ return false }`) satisfies the full statement: -/
 
-/-- what `Clear(-k)` does, for every state and every `k ≥ 1`: no bit ever changes; for `k ≤ 63` the counter is
-    decremented — `Available()` grows by one although nothing was released — and the call answers true (or panics
-    'negative streams inuse'); for `k ≥ 64` it panics with an index error and changes nothing. -/
-theorem C08_clear_negative_effect (sh : Shared) (k : Nat) :
-    (clearNeg sh k).1.words = sh.words ∧
-    (k < 64 → available (clearNeg sh k).1 = available sh + 1 ∧
-      ((clearNeg sh k).2 = some (.cleared true) ∨ (clearNeg sh k).2 = some .crashNegative)) ∧
-    (64 ≤ k → clearNeg sh k = (sh, some .crashIndex)) := by
-  unfold clearNeg
-  by_cases h : 64 ≤ k
-  · simp only [h, ↓reduceIte]
-    exact ⟨trivial, fun h' => by omega, fun _ => trivial⟩
-  · simp only [h, ↓reduceIte]
-    refine ⟨trivial, fun _ => ⟨by simp only [available]; omega, ?_⟩, fun h' => by simp at h'⟩
-    split
-    · exact Or.inr rfl
-    · exact Or.inl rfl
+/-- `Clear` of ANY argument outside `0..NumStreams-1` — negative (`clearNeg`, every `k`) or `≥ NumStreams` —, in
+    EVERY state: answers false and changes nothing (no bit, not the counter, not the offset word); as a step of the
+    concurrent machine it leaves the shared state alone and returns at once. -/
+theorem C08_clear_out_of_range (sh : Shared) :
+    (∀ k, clearNeg sh k = (sh, some (.cleared false))) ∧
+    (∀ id, 64 * sh.words.length ≤ id →
+      clear sh id = (sh, some (.cleared false)) ∧ tstep sh (.c8 id) = (sh, .idle, some (.cleared false))) := by
+  refine ⟨fun _ => rfl, fun id hid => ?_⟩
+  have hr : ¬ id / 64 < sh.words.length := by omega
+  exact ⟨clear_oob sh id hr, (C08_clear_noop sh id).2.1 hr⟩
 
-set_option maxRecDepth 100000 in
-/-- kernel-checked counterexample: 128-id generator, id 1 handed out (126 ids free). `Clear(-1)` answers true,
-    changes no bit, and `Available()` is 127; on a fresh generator it panics 'negative streams inuse', `Clear(-64)`
-    panics with an index error. Reproduced on the real code by `seq 2 g n1 a s g a`. -/
-theorem C08_cex_clear_negative :
-    (clearNeg (getStream (init 2)).1 1).2 = some (.cleared true) ∧
-    (clearNeg (getStream (init 2)).1 1).1.words = (getStream (init 2)).1.words ∧
-    available (clearNeg (getStream (init 2)).1 1).1 = 127 ∧
-    countBelow (bitAt (getStream (init 2)).1.words) 128 = 2 ∧
-    (clearNeg (init 2) 1).2 = some .crashNegative ∧ (clearNeg (init 2) 64).2 = some .crashIndex := by
-  decide
+/-- non-vacuity: one id handed out; `Clear(-1)`, `Clear(-64)`, `Clear(128)`, `Clear(100000)` answer false and
+    `Available()` stays 126 -/
+example : (hTrace (init 2) [.op .get, .clearNeg 1, .clearNeg 64, .op (.clear 128), .op (.clear 100000)]).map
+      (fun r => (r.2.1, r.2.2)) =
+    [(some (.stream 1 true), 126), (some (.cleared false), 126), (some (.cleared false), 126),
+     (some (.cleared false), 126), (some (.cleared false), 126)] := by decide
 
 /-! ### sequential use, all op sequences -/
 
 /-- sequential use, ALL sequences of `GetStream` / `Clear(id)` (any id ≠ 0: held, free, released twice,
     beyond the capacity) / `Available`, both capacities: every answer is allowed by the abstract id-set
     specification `specStep` — an id handed out is in `1..NumStreams-1` and was free; `GetStream` fails
-    only when all `NumStreams-1` ids are handed out; `Clear` returns whether the id was handed out (index
-    panic beyond the capacity, nothing changes) — and after EVERY op `Available()` = `NumStreams-1-#handed
+    only when all `NumStreams-1` ids are handed out; `Clear` returns whether the id was handed out (false,
+    nothing changes, beyond the capacity) — and after EVERY op `Available()` = `NumStreams-1-#handed
     out`. (`seqMon` is the fused form the driver runs.) -/
 theorem C08_sequential_spec (n : Nat) (hn : 0 < n) (ops : List Op) (hops : ∀ op, op ∈ ops → op ≠ .clear 0) :
     specCheck (64 * n) (specInit (64 * n)) (seqTrace (init n) ops) = true ∧
